@@ -91,9 +91,15 @@ struct PkgEngine : Engine {
 			unsigned k = (unsigned)fr.below(20);
 			size_t sz;
 			unsigned sk = (unsigned)w.below(10);
-			if (sk < 3) sz = (size_t)w.range(1, 4); else if (sk < 8) sz = (size_t)w.range(5, 600); else sz = (size_t)w.range(4000, 66000);
+			if (sk < 3) sz = (size_t)w.range(1, 4); else if (sk < 7) sz = (size_t)w.range(5, 600); else if (sk < 9) sz = (size_t)w.range(4000, 66000); else sz = (size_t)w.range(30000, 140000);      // up to several 32 KiB compressor windows
 			std::string content;
-			for (size_t j = 0; j < sz; j++) content.push_back((char)(w.chance(1, 6) ? 0 : w.below(256)));
+			// what the bytes look like decides which path the compressor takes: mixed (a few percent compressible), uniform random (incompressible,
+			// like a JPEG: stored blocks), one byte repeated or a short text repeated (long matches, tiny output)
+			unsigned ck = (unsigned)w.below(8);
+			if (ck == 0) { for (size_t j = 0; j < sz; j++) content.push_back((char)w.below(256)); }
+			else if (ck == 1) content.assign(sz, (char)w.below(256));
+			else if (ck == 2) { static const char unit[] = "body { color: red; margin: 0 auto; }\n"; while (content.size() < sz) content += unit; content.resize(sz); }
+			else for (size_t j = 0; j < sz; j++) content.push_back((char)(w.chance(1, 6) ? 0 : w.below(256)));
 			if (w.chance(1, 10)) content = "\xef\xbb\xbf" + content;
 			Json v = Json::array(); v.push(content);
 			if (k == 0) { v.push(content + "second version"); }
